@@ -6,7 +6,7 @@ test -x /venv/bin/python
 java -version >/dev/null 2>&1
 mkdir -p .work evidence replays
 cd spec
-for m in Tree Hsm HsmMC HsmAlgo LockingDeque AO AOSeq Fabric FabricMC Timers Signals SignalsInv Singleton SingletonInv TSA System SystemMC; do
+for m in Tree Hsm HsmMC HsmAlgo LockingDeque AO AOSeq Fabric FabricMC Timers Signals SignalsInv Singleton SingletonInv TSA TSAInv TimersInv System SystemMC; do
   java -cp /opt/veriftools/tla/tla2tools.jar:/opt/veriftools/tla/CommunityModules-deps.jar tla2sany.SANY $m.tla >/dev/null 2>&1 || { echo "SANY failed on $m"; exit 1; }
 done
 echo setup ok
